@@ -32,6 +32,8 @@ def shapes(h):
         "nested": [pop, com, push(1), com, come, come],
         # different final pcs: child 1 jumps forward past ComputeEnd
         "jump_past": [pop, com, push(3), OP(h, "Stack", "Swap"), OP(h, "TotalControlFlow", "JumpIf"), come, push(7), OP(h, "Stack", "Pop")],
+        # only child 0 jumps past ComputeEnd: the furthest child is not the last one
+        "jump_first": [pop, com, push(0), OP(h, "Pred", "Eq"), push(3), OP(h, "Stack", "Swap"), OP(h, "TotalControlFlow", "JumpIf"), come, push(7), OP(h, "Stack", "Pop")],
     }
 
 
@@ -120,7 +122,7 @@ HARNESSES = {
     "compute": dict(props=["C10", "C07", "C05"], crates=CR, fn=compute,
         params=dict(quick=dict(bmax=2, ns=1, nm=1), thorough=dict(bmax=3, ns=2, nm=2)),
         witnesses=["ok", "err-args", "err-child"],
-        bound=dict(quick="breadth -1..2 (symbolic), 6 child-body shapes (index-dependent alloc / store + parent-memory read / HaltIf on the index / no ComputeEnd / nested Compute / jump past ComputeEnd), parent stack <=1 + breadth, memory <=1 symbolic words, repeat stack <=1 symbolic slot, depth 0/1, any gas limit, per-op cost <=1000",
+        bound=dict(quick="breadth -1..2 (symbolic), 7 child-body shapes (index-dependent alloc / store + parent-memory read / HaltIf on the index / no ComputeEnd / nested Compute / last or first child jumping past ComputeEnd), parent stack <=1 + breadth, memory <=1 symbolic words, repeat stack <=1 symbolic slot, depth 0/1, any gas limit, per-op cost <=1000",
                    thorough="breadth up to 3, stack/memory <=2"),
         replay=dict(kind="vm_compute")),
 }
